@@ -23,6 +23,10 @@ pub struct Cfg {
     /// the first object comes from a stream (no MD5 pass) instead of a buffer
     #[serde(default)]
     pub stream: bool,
+    /// the search starts from a non-initial state: 1 = both objects added (and published), 2 = ... then three packets read
+    /// and the clock advanced by one tick (objects in the middle of / between transfers)
+    #[serde(default)]
+    pub prefix: u8,
 }
 
 pub const TICK: u64 = 500;
@@ -46,6 +50,8 @@ pub fn catalog(c: &Cfg) -> Vec<ObjSpec> {
     let mut o1 = ObjSpec::simple(6, 2);
     o1.oti = Some(OtiSpec::new(Scheme::NoCode, 4, 2, 0, true));
     o1.count = 2;
+    // an explicit refusal of the immediate stop must behave like the default
+    o1.immediate_stop = Some(false);
     vec![o0, o1]
 }
 
@@ -171,6 +177,16 @@ pub fn monitor(log: &[Item], cat: &[ObjSpec], toi_of: &[Option<u128>], full_fdt:
                         let s = format!("StopTransfer for object {} without an open transfer", k);
                         viol(&mut m, "C12/stop-without-start", s);
                     } else {
+                        // an object that was never fully sent and has no immediate-stop permission finishes the
+                        // transfer during which it was removed
+                        if let (true, Some((true, stops_at_rm))) = (o.removed, o.rm) {
+                            let forced = stops_at_rm > 0 || cat[k].immediate_stop == Some(true);
+                            if !forced && o.stops == stops_at_rm && o.pkts_in_open < per_transfer[k] {
+                                let s = format!("object {} (never fully sent, immediate stop {:?}) was removed during its first transfer, which then ended after {} of {} packets", k, cat[k].immediate_stop, o.pkts_in_open, per_transfer[k]);
+                                viol(&mut m, "C12/unforced-removal-cuts-the-transfer-short", s);
+                            }
+                        }
+                        let o = &mut m.o[k];
                         o.open = false;
                         o.stops += 1;
                         o.last_stop_ms = Some(*ms);
@@ -282,6 +298,9 @@ impl Sys for Sys12 {
             v.push(Ev::Trigger(0, None));
             v.push(Ev::Trigger(0, Some((self.s.now_ms + 2 * TICK) as i64)));
         }
+        if self.s.toi_of[1].is_some() && !self.s.removed[1] {
+            v.push(Ev::Trigger(1, None));
+        }
         v.push(Ev::Tick(TICK));
         v.push(Ev::Tick(3 * TICK));
         v
@@ -366,7 +385,21 @@ impl Sys for Sys12 {
 }
 
 pub fn make(cfg: &Cfg) -> Sys12 {
-    Sys12 { cfg: cfg.clone(), s: SendSys::new(&sess(cfg), Arc::new(catalog(cfg))), mon: Mon12::default(), api: vec![] }
+    let mut s = Sys12 { cfg: cfg.clone(), s: SendSys::new(&sess(cfg), Arc::new(catalog(cfg))), mon: Mon12::default(), api: vec![] };
+    if cfg.prefix >= 1 {
+        s.apply(&Ev::Add(0));
+        s.apply(&Ev::Add(1));
+        if cfg.full_fdt {
+            s.apply(&Ev::Publish);
+        }
+    }
+    if cfg.prefix >= 2 {
+        s.apply(&Ev::Read1);
+        s.apply(&Ev::Read1);
+        s.apply(&Ev::Read1);
+        s.apply(&Ev::Tick(TICK));
+    }
+    s
 }
 
 pub fn replay(v: &serde_json::Value) -> Vec<Violation> {
@@ -389,16 +422,21 @@ pub fn configs(thorough: bool) -> Vec<Cfg> {
                     if !thorough && ((count == 3 && carousel != 0) || (!full_fdt && (count != 2 || immediate_stop))) {
                         continue;
                     }
-                    v.push(Cfg { count, carousel, immediate_stop, full_fdt, multiplex: 1, stream: false });
+                    v.push(Cfg { count, carousel, immediate_stop, full_fdt, multiplex: 1, stream: false, prefix: 0 });
+                    if count == 2 && carousel <= 1 && !immediate_stop {
+                        for prefix in [1u8, 2] {
+                            v.push(Cfg { count, carousel, immediate_stop, full_fdt, multiplex: 1, stream: false, prefix });
+                        }
+                    }
                     if (count >= 2 || carousel != 0) && !immediate_stop && full_fdt {
-                        v.push(Cfg { count, carousel, immediate_stop, full_fdt, multiplex: 1, stream: true });
+                        v.push(Cfg { count, carousel, immediate_stop, full_fdt, multiplex: 1, stream: true, prefix: 0 });
                     }
                     if count == 1 && !immediate_stop && carousel != 0 {
                         // zero carousel periods: at a fixed instant the reads must still terminate
-                        v.push(Cfg { count, carousel: carousel + 2, immediate_stop, full_fdt, multiplex: 1, stream: false });
+                        v.push(Cfg { count, carousel: carousel + 2, immediate_stop, full_fdt, multiplex: 1, stream: false, prefix: 0 });
                     }
                     if count == 2 && (thorough || carousel != 2) {
-                        v.push(Cfg { count, carousel, immediate_stop, full_fdt, multiplex: 2, stream: false });
+                        v.push(Cfg { count, carousel, immediate_stop, full_fdt, multiplex: 2, stream: false, prefix: 0 });
                     }
                 }
             }
